@@ -866,6 +866,7 @@ class RZILTransformer(Transformer):
         elif a and b:
             # Shifts: the result has the promoted type of the left operand (C11 6.5.7).
             a = self.promotion_cast(a)
+            b = self.promotion_cast(b)
         v = BitOp(name, a, b, op_type)
         return self.add_op(v)
 
